@@ -109,6 +109,7 @@ class MaterialPoint:
             # one point, so the fields are read back as plain 6-vectors
             sig = zNew = ok = None
             for _ in range(self._maxIter):
+                epsAt = eps.copy()  # the strain sig and zNew belong to
                 sig_e_pg, C_e_pg, zNew, ok = self.__behavior.Integrate(
                     self.__fe(eps), z, dt
                 )
@@ -120,6 +121,16 @@ class MaterialPoint:
                     break
                 sub = np.asarray(C_e_pg)[0, 0][np.ix_(free, free)]
                 eps[free] -= np.linalg.solve(sub, r)
+            else:
+                # out of iterations. An absolute 1e-9 cannot be met once stresses are ~1e8 (Pa), so
+                # what is round-off of the stiffness -- a strain error below _tol, the floor the
+                # plane-stress loop of Behavior uses -- is accepted; anything else is not a step
+                eps[:] = epsAt
+                floor = self._tol * max(1.0, float(np.max(np.abs(self.__behavior.C))))
+                assert np.max(np.abs(r)) < floor, (
+                    f"the stress control did not converge at step {k} "
+                    f"(max |sigma - target| = {np.max(np.abs(r)):.3e}) - reduce the step size"
+                )
 
             assert (
                 ok is not None and ok.all()
